@@ -930,7 +930,32 @@ func c01LaneC(c *Ctx, root *Rng, n int) []*c01Case {
 		r := root.Fork(uint64(i))
 		files := baseFiles()
 		cs := &c01Case{Lane: "C-configuration", Files: files}
-		switch r.Intn(6) {
+		nSweep := 30
+		switch r.Intn(7) {
+		case 6: // type inference rules of the configuration file (AnntotateSets): the class named by the n-th argument of a function
+			var sets []interface{}
+			var sb strings.Builder
+			sb.WriteString("---@class Lobby_UIBP\n---@field title string\n---@class Shop_UIBP : Lobby_UIBP\n---@field price number\n\n")
+			for k := 0; k < r.Range(1, 3); k++ {
+				fn := fmt.Sprintf("GetUIObject%d", k)
+				idx := []int{1, 2, 2, 3, 0, -1, 100}[r.Intn(7)]
+				sets = append(sets, map[string]interface{}{"FuncName": fn, "ParamIndex": idx, "SplitFlag": r.Intn(3), "PrefixStr": r.Pick([]string{"", "", "Lobby", "x"}), "SuffixStr": r.Pick([]string{"", "", "_UIBP", "y"})})
+				fmt.Fprintf(&sb, "function %s(bp, name, extra)\nend\n", fn)
+				// calls with every number of arguments from none to four, class names and other values in every position
+				args := []string{"\"Lobby_UIBP\"", "\"Shop_UIBP\"", "bp", "1", "nil", "\"\"", "\"Lobby\"", "\"a.b.Lobby_UIBP\"", "{}", "...", "f()"}
+				for j := 0; j < r.Range(4, 9); j++ {
+					var as []string
+					for q := r.Intn(5); q > 0; q-- {
+						as = append(as, r.Pick(args))
+					}
+					fmt.Fprintf(&sb, "local v%d_%d = %s(%s)\nprint(v%d_%d, v%d_%d.title)\n", k, j, fn, strings.Join(as, ", "), k, j, k, j)
+				}
+			}
+			files["m.lua"] = sb.String()
+			b, _ := json.Marshal(map[string]interface{}{"BaseDir": "./", "AnntotateSets": sets})
+			files["luahelper.json"] = string(b)
+			cs.Label = "annotate-sets"
+			nSweep = 150
 		case 5: // entry-file project mode (luahelper.json ProjectFiles) over require graphs with cycles, self-requires and diamonds
 			edges := map[string][]string{"m": {"sub.mod"}, "sub.mod": nil, "sub.other": nil, "leaf": nil}
 			names := []string{"m", "sub.mod", "sub.other", "leaf"}
@@ -1049,6 +1074,9 @@ func c01LaneC(c *Ctx, root *Rng, n int) []*c01Case {
 			cs.Label = "didChangeConfiguration"
 		}
 		steps := sweep(r)
+		if nSweep != 30 {
+			steps = c01Sweep(r, "m.lua", files["m.lua"], nSweep, []string{"textDocument/definition", "textDocument/hover", "textDocument/completion"})
+		}
 		// later didChangeConfiguration notifications (the first is ignored by design)
 		for k := 0; k < r.Range(0, 3); k++ {
 			var settings interface{}
